@@ -163,13 +163,9 @@ pub fn check(case: &TreeCase) -> Result<CaseInfo, String> {
             // inconsistent setup: construction must have panicked (compare_run checked that);
             // the text names the problem
             let msg = construct_msg.unwrap_or_default();
-            let named = match &err {
-                ConstructError::ModeConflict { method } => msg.contains(FACTS[*method as usize].path),
-                ConstructError::EmptyStub { .. } => !msg.is_empty(),
-                ConstructError::NoMutexApi { .. } => !msg.is_empty(),
-            };
-            if !named {
-                return Err(format!("construction of an inconsistent setup ({err:?}) panicked without naming the method: {msg:?}"));
+            // the property demands an immediate failure; its wording is not compared
+            if msg.is_empty() {
+                return Err(format!("construction of an inconsistent setup ({err:?}) panicked without any message"));
             }
             info = info.class(match err {
                 ConstructError::ModeConflict { .. } => "rejected-up-front:mode-conflict",
